@@ -17,7 +17,7 @@ ALPHAS = (0.5, -3.0, 1.0, -2.0 ** -18, 0.0, 1 + 2.0 ** -18, 3.0, 0.25)
 def gen(ctx, path):
     rnd = random.Random(ctx.seed)
     c = Cmds(path)
-    c.add(op="consts")
+    c.add(op="consts", acc=1)
     for node in ORDER:
         pts = lattice_out(node)
         if ctx.quick and len(pts) > 320:
@@ -140,7 +140,7 @@ def replay(ctx, path):
         kw = {"a": hx(dy_to_float(ev["a"]))} if "a" in ev else {}
         c.add(op="conv3", to=ev["to"], **{"from": ev["from"], "in": vals}, **kw)
     else:
-        c.add(op="consts")
+        c.add(op="consts", acc=1)
     c.close()
     run_bin(bins[rp["bin"]], ["--cmds", ctx.p("replay.cmds"), "--out", tp])
     res = validate_trace(ctx, "TraceBounds", tp, stateless=True, tag="replay")
